@@ -249,3 +249,63 @@ def _row_prefixed(ex):
     lines = env["lines"]
     last = ex.list_get(lines, ex.z(ex.length(lines)) - 1)
     return ex.b(ex.truth(ex.eq(last, ex.concat([old["_second_prefix"], it[0][2]]))))
+
+
+# ---- images
+contract(Contract(
+    target=N + "render_image",
+    props=["C04", "C01", "C12"],
+    params={"element": "ref:ImageEl"},
+    self_cls="MarkdownNormalizer",
+    setup=self_setup,
+    types={"template": "str", "title": "str"},
+    calls={"self.render_children": render_inline("RENDER_CHILDREN"),
+           "ImageEl.dest": Callee("attr", ret="str"), "ImageEl.title": Callee("attr", ret="opt[str]"),
+           "_normalize_title_quotes": Callee("uf", ret="str", sig=["title"])},
+    assumes=["_normalize_title_quotes is uninterpreted (what it does to quotes inside a title is the recorded finding C01-title-quotes)"],
+    ensures={
+        # alt text = the rendered children, destination verbatim, the title only through _normalize_title_quotes
+        "no_title": "implies(isnone(element.title) or val(element.title) == '',"
+                    " result == '![' + logres('RENDER_CHILDREN') + '](' + element.dest + ')')",
+        "with_title": "implies(not isnone(element.title) and val(element.title) != '',"
+                      " result == '![' + logres('RENDER_CHILDREN') + '](' + element.dest + ' '"
+                      " + call('_normalize_title_quotes', val(element.title)) + ')')",
+    },
+    canaries=[('template = "![{}]({}{})"', 'template = "![{}]({} {})"', None, ["post[no_title"]),
+              ('return template.format(self.render_children(element), element.dest, title)', 'return template.format(self.render_children(element), element.dest.strip(), title)', None, ["post["])],
+))
+
+
+# ---- links
+def next_label(ex, node, args, kwargs):
+    """the reference-label lookup `next((k for k, v in defs.items() if v == (dest, title)), None)` is abstracted to an
+    optional label (which definitions match is not decided here: bounded layers of C01 / C04)"""
+    from vfcore.values import VOpt
+    return VOpt(z3.FreshConst(z3.BoolSort(), "label?none"), ex.fresh("str", "label"))
+
+
+contract(Contract(
+    target=N + "render_link",
+    props=["C04", "C01", "C12"],
+    params={"element": "ref:LinkEl"},
+    self_cls="MarkdownNormalizer",
+    setup=lambda ex: (self_setup(ex), ex.envs[0]["self"].fields.__setitem__("root_node", ex.mk("ref:Document", "root_node"))),
+    types={"link_text": "str", "link_title": "opt[str]", "label": "opt[str]", "title": "str"},
+    calls={"self.render_children": render_inline("RENDER_CHILDREN"),
+           "LinkEl.dest": Callee("attr", ret="str"), "LinkEl.title": Callee("attr", ret="opt[str]"),
+           "_normalize_title_quotes": Callee("uf", ret="str", sig=["title"]),
+           "next": Callee("custom", handler=next_label, lazy=True)},
+    assumes=["which link definition matches (destination, title) is abstracted: the label is an arbitrary optional string"],
+    ensures={
+        # inline form: text, destination verbatim, the title only through _normalize_title_quotes
+        "inline_form": "implies(isnone(label) and (isnone(element.title) or val(element.title) == ''),"
+                       " result == '[' + logres('RENDER_CHILDREN') + '](' + element.dest + ')')"
+                       " and implies(isnone(label) and not isnone(element.title) and val(element.title) != '',"
+                       " result == '[' + logres('RENDER_CHILDREN') + '](' + element.dest + ' '"
+                       " + call('_normalize_title_quotes', val(element.title)) + ')')",
+        "reference_form": "implies(not isnone(label), result == '[' + val(label) + ']' or"
+                          " result == '[' + logres('RENDER_CHILDREN') + '][' + val(label) + ']')",
+    },
+    canaries=[('return f"[{link_text}]({element.dest}{title})"', 'return f"[{link_text}]({element.dest.strip()}{title})"', None, ["post[inline_form"]),
+              ('return f"[{link_text}][{label}]"', 'return f"[{label}][{link_text}]"', None, ["post[reference_form"])],
+))
